@@ -48,6 +48,29 @@ impl Parse for Expr {
         }) {
             Ok(Self::Ident(ident))
         } else {
+            // An argument ends where Rust's own grammar ends the expression. The tokens themselves
+            // are handed on untouched.
+            let fork = input.fork();
+            if fork.parse::<syn::Expr>().is_ok()
+                && (fork.is_empty() || fork.peek(syn::token::Comma))
+            {
+                let end = fork.cursor();
+                let tokens = input.step(|c| {
+                    let (mut stream, mut rest) = (TokenStream::new(), *c);
+                    while rest != end {
+                        let (tt, next) = rest.token_tree().ok_or_else(|| {
+                            syn::Error::new(c.span(), "failed to parse expression")
+                        })?;
+                        tt.to_tokens(&mut stream);
+                        rest = next;
+                    }
+                    Ok((stream, rest))
+                });
+                if let Ok(stream) = tokens {
+                    return Ok(Self::Other(parenthesize_invisible_groups(stream)));
+                }
+            }
+            // Anything else is split by a simpler approximation and left to the compiler to judge.
             input.step(|c| {
                 take_until1(
                     alt([
